@@ -24,6 +24,8 @@ pub struct IndexCatalog {
 
 impl IndexCatalog {
     pub fn open_or_create(pager: &mut Pager) -> Result<Self> {
+        #[cfg(nervusdb_verif)]
+        let _owner = nervusdb_api::verif::owner_scope("catalog");
         let page = match pager.index_catalog_root() {
             Some(p) => p,
             None => {
@@ -79,6 +81,8 @@ impl IndexCatalog {
     }
 
     pub fn flush(&self, pager: &mut Pager) -> Result<()> {
+        #[cfg(nervusdb_verif)]
+        let _owner = nervusdb_api::verif::owner_scope("catalog");
         let mut buf = [0u8; PAGE_SIZE];
         encode_catalog_page(&self.entries, &mut buf)?;
         pager.write_page(self.page, &buf)?;
